@@ -166,6 +166,9 @@ impl Reasoner {
                 });
 
                 if is_maximal {
+                    // Keep only subset-maximal consistent sets: a repair found
+                    // earlier may be a strict subset of this one.
+                    repairs.retain(|repair| !current_set.is_superset(repair));
                     repairs.push(current_set);
                 }
             } else {
